@@ -881,7 +881,61 @@ pub fn c19_history(h: &History, rep: &mut Report) {
     };
     rep.evaluations += 1;
     let hh = h.clone();
-    let res = guard(h, rep, |rep| {
+    // how far the run got: 0 = before the reset, n = the first n calls are done / being done
+    let phase = std::cell::Cell::new(0usize);
+    let res = match guarded(|| c19_run(&hh, ris_at, rep, &phase)) {
+        Guarded::Done(v) => v,
+        Guarded::AvtPanic(msg, loc) => {
+            let n = phase.get();
+            // "reacts to every subsequent input exactly like the fresh one": a reset terminal that
+            // panics where a fresh terminal of the same size takes the same calls and queries
+            // without panicking differs from it (the panic itself is C01's)
+            let fresh_ok = n > ris_at && {
+                let (mut c, mut rw) = (hh.cols, hh.rows);
+                for call in &hh.calls[..ris_at] {
+                    if let Call::Resize(a, b) = call {
+                        c = *a;
+                        rw = *b;
+                    }
+                }
+                matches!(
+                    guarded(|| {
+                        let mut b = Vt::builder();
+                        b.size(c, rw);
+                        if let Some(l) = hh.limit {
+                            b.scrollback_limit(l);
+                        }
+                        let mut fresh = b.build();
+                        drop(Snap::of(&fresh));
+                        for call in &hh.calls[ris_at + 1..n.min(hh.calls.len())] {
+                            drop(apply(&mut fresh, call, Handling::Consume));
+                            drop(Snap::of(&fresh));
+                        }
+                    }),
+                    Guarded::Done(())
+                )
+            };
+            rep.count_s("foreign_divergence[C01]".into(), 1);
+            if fresh_ok {
+                Some((n.min(hh.calls.len()), format!("after ESC c the terminal panics ({} at {}) where a fresh terminal of the same size handles the same calls and queries", msg, loc)))
+            } else {
+                None
+            }
+        }
+        Guarded::HarnessPanic(msg, loc) => {
+            rep.inconclusive(format!("harness panic at {}: {} on {}", loc, msg, h.brief()));
+            None
+        }
+    };
+    if let Some((n, msg)) = res {
+        let mut cut = h.clone();
+        cut.calls.truncate(n);
+        rep.violation("C19", msg, &cut);
+    }
+}
+
+fn c19_run(hh: &History, ris_at: usize, rep: &mut Report, phase: &std::cell::Cell<usize>) -> Option<(usize, String)> {
+    {
         let mut vt = hh.build();
         for c in &hh.calls[..ris_at] {
             drop(apply(&mut vt, c, Handling::Consume));
@@ -908,6 +962,7 @@ pub fn c19_history(h: &History, rep: &mut Report) {
         if hb.cursor_keys_app_mode {
             rep.count("resets_with_cursor_key_mode_set", 1);
         }
+        phase.set(ris_at + 1);
         drop(apply(&mut vt, &hh.calls[ris_at], Handling::Consume));
         let (c, rw) = vt.size();
         let mut fresh = {
@@ -926,6 +981,7 @@ pub fn c19_history(h: &History, rep: &mut Report) {
             return Some((ris_at + 1, d));
         }
         for (i, c) in hh.calls[ris_at + 1..].iter().enumerate() {
+            phase.set(ris_at + 2 + i);
             let o1 = apply(&mut vt, c, Handling::Consume);
             let o2 = apply(&mut fresh, c, Handling::Consume);
             if o1.drained != o2.drained {
@@ -939,11 +995,6 @@ pub fn c19_history(h: &History, rep: &mut Report) {
             }
         }
         None
-    });
-    if let Some((n, msg)) = res {
-        let mut cut = h.clone();
-        cut.calls.truncate(n);
-        rep.violation("C19", msg, &cut);
     }
 }
 
@@ -1001,6 +1052,68 @@ pub fn work_c19(ctx: &Ctx, rep: &mut Report) {
             u += stride * ctx.nshards;
         }
         rep.count("state_product_resets", done);
+    }
+    // RIS while the parked primary screen is stale: the alternate screen was entered and the terminal
+    // resized (the primary buffer is only re-wrapped lazily), with and without primary scrollback, for
+    // every combination of width / height change
+    {
+        let enters = ["\x1b[?47h", "\x1b[?1047h", "\x1b[?1049h"];
+        let deltas: [isize; 7] = [0, 1, 2, 7, -1, -2, 40];
+        let sbs = [0usize, 1, 3, 9];
+        let sizes = [(6usize, 3usize), (4, 4), (10, 2), (1, 1), (16, 8)];
+        let total = enters.len() * deltas.len() * deltas.len() * sbs.len() * sizes.len() * 2;
+        let reps = if ctx.thorough { 8 } else { 1 };
+        let mut done = 0u64;
+        for rep_i in 0..reps {
+            let mut u = ctx.shard;
+            while u < total {
+                let mut k = u;
+                let mut pick = |n: usize| {
+                    let v = k % n;
+                    k /= n;
+                    v
+                };
+                let enter = enters[pick(enters.len())];
+                let dc = deltas[pick(deltas.len())];
+                let dr = deltas[pick(deltas.len())];
+                let sb = sbs[pick(sbs.len())];
+                let (c, r) = sizes[pick(sizes.len())];
+                let twice = pick(2) == 1;
+                let mut rr = Rng::derive(ctx.seed, &[0xC19, 3, u as u64, rep_i as u64]);
+                let mut h = History::new(c, r, match rr.below(3) { 0 => None, 1 => Some(0), _ => Some(5) });
+                let mut pre = String::new();
+                for i in 0..(sb + r - 1) {
+                    pre.push_str(&format!("l{}\r\n", i));
+                }
+                pre.push_str("\x1b[1;7mtail");
+                h.calls.push(Call::FeedStr(pre));
+                h.calls.push(Call::FeedStr(enter.to_string()));
+                let nc = (c as isize + dc).max(1) as usize;
+                let nr = (r as isize + dr).max(1) as usize;
+                if twice {
+                    h.calls.push(Call::Resize((c + nc + 1) / 2, (r + nr) / 2 + 1));
+                    h.calls.push(Call::FeedStr("mid\r\nway".into()));
+                }
+                h.calls.push(Call::Resize(nc, nr));
+                if rr.chance(1, 2) {
+                    h.calls.push(Call::FeedStr("alt\x1b[2;2Hx\x1b7".into()));
+                }
+                h.calls.push(Call::FeedStr(parkers[rr.below(parkers.len())].to_string()));
+                h.meta.push(("ris_at".into(), h.calls.len()));
+                h.calls.push(Call::FeedStr("\x1bc".into()));
+                if rr.chance(1, 2) {
+                    for p in &pr[rr.below(pr.len())] {
+                        h.calls.push(Call::FeedStr(p.to_string()));
+                    }
+                } else {
+                    h.calls.extend(gen::history(&mut rr, &cprof).calls);
+                }
+                c19_history(&h, rep);
+                done += 1;
+                u += ctx.nshards;
+            }
+        }
+        rep.count("resets_with_stale_parked_primary_screen", done);
     }
     crate::mon::diffmon::work(ctx, rep, (6_000, 100_000), (0, 0), false);
 }
